@@ -1,5 +1,5 @@
 #!/usr/bin/env python3
-"""mkprompt.py mut <PID> <N> <TAG>  |  strengthen <PID> <FAM> <miss,miss,...>  |  growth <NAME> <HOST> <FAM> <WHAT> <CODE>
+"""mkprompt.py mut <PID> <N> <TAG>  |  benign <PID> <N> <TAG>  |  strengthen <PID> <FAM> <miss,miss,...>  |  growth <NAME> <HOST> <FAM> <WHAT> <CODE>
 Fills the prompt templates under tools/ and prints the result (mutator prompts contain nothing from /verif but
 the property text and one-line summaries of changes already collected, so that new ones differ)."""
 import glob, json, os, sys
@@ -25,6 +25,12 @@ if kind == "mut":
     if taken:
         t += "\n\nChanges other engineers already delivered for this property (do something DIFFERENT: other files, other clauses of the statement, other mechanisms):\n" + "\n".join(taken)
     print(t)
+elif kind == "benign":
+    pid, n, tag = sys.argv[2], sys.argv[3], sys.argv[4]
+    p = prop(pid)
+    text = json.dumps({k: p[k] for k in ("id", "title", "statement", "quantifier", "why_tests_cant", "anchors")}, indent=1)
+    t = open(V + "/tools/benign_prompt.txt").read()
+    print(t.replace("{WT}", "/tmp/%s-wt" % tag).replace("{TAG}", tag).replace("{PROPERTY}", text).replace("{N}", n).replace("{PID}", pid))
 elif kind == "strengthen":
     pid, fam, misses = sys.argv[2], sys.argv[3], sys.argv[4].split(",")
     t = open(V + "/tools/strengthen_prompt.txt").read()
